@@ -39,7 +39,7 @@ func provNumbers(r *core.Run) {
 	}
 	info := pk.TypesInfo
 	var numberStores []*ast.AssignStmt
-	ast.Inspect(fd.Body, func(n ast.Node) bool {
+	ast.Inspect(core.TreeBody(pk, fd, "buildField"), func(n ast.Node) bool {
 		if as, ok := n.(*ast.AssignStmt); ok && len(as.Lhs) == 1 {
 			if s, ok := as.Lhs[0].(*ast.SelectorExpr); ok && s.Sel.Name == "Number" && strings.HasSuffix(core.TypeStr(info.TypeOf(s.X)), "descriptorpb.FieldDescriptorProto") {
 				numberStores = append(numberStores, as)
@@ -66,7 +66,7 @@ func provNumbers(r *core.Run) {
 		}
 	}
 	// key literal Number: gl.Ptr(int32(1))
-	ast.Inspect(fd.Body, func(n ast.Node) bool {
+	ast.Inspect(core.TreeBody(pk, fd, "buildField"), func(n ast.Node) bool {
 		cl, ok := n.(*ast.CompositeLit)
 		if !ok || !strings.HasSuffix(core.TypeStr(info.TypeOf(cl)), "descriptorpb.FieldDescriptorProto") {
 			return true
